@@ -208,8 +208,61 @@ func moduleFuncs(P *load.Program) []*ssa.Function {
 			}
 		}
 	}
-	sortFuncs(out)
-	return out
+	// helpers whose every call was inlined by the normaliser (and any other unexported, non-anchor function nothing
+	// refers to) cannot run: they are not part of the analysed program
+	referenced := map[*ssa.Function]bool{}
+	for _, fn := range out {
+		for _, b := range fn.Blocks {
+			for _, in := range b.Instrs {
+				var ops []*ssa.Value
+				for _, op := range in.Operands(ops) {
+					if op == nil || *op == nil {
+						continue
+					}
+					switch x := (*op).(type) {
+					case *ssa.Function:
+						referenced[x] = true
+					case *ssa.MakeClosure:
+						if f, ok := x.Fn.(*ssa.Function); ok {
+							referenced[f] = true
+						}
+					}
+				}
+			}
+		}
+	}
+	var live []*ssa.Function
+	for _, fn := range out {
+		if fn.Parent() == nil && fn.Pkg != nil && !referenced[fn] && fn.Object() != nil && !fn.Object().Exported() &&
+			fn.Name() != "init" && fn.Name() != "main" && !load.Anchors[fn.Pkg.Pkg.Path()+"."+fn.Name()] {
+			continue
+		}
+		live = append(live, fn)
+	}
+	// closures of dropped functions go with them
+	dropped := map[*ssa.Function]bool{}
+	for _, fn := range out {
+		dropped[fn] = true
+	}
+	for _, fn := range live {
+		delete(dropped, fn)
+	}
+	var res []*ssa.Function
+	for _, fn := range live {
+		p := fn.Parent()
+		gone := false
+		for p != nil {
+			if dropped[p] {
+				gone = true
+			}
+			p = p.Parent()
+		}
+		if !gone {
+			res = append(res, fn)
+		}
+	}
+	sortFuncs(res)
+	return res
 }
 
 func c05MRS(sc *SC, phi *ssa.Phi) {
